@@ -49,16 +49,18 @@ def run(ctx):
   from . import c03
   ctx.borrow(c03.rule_tree, "R-C17-BYVALUE")
   ctx.borrow(c03.rule_remainder, "R-C17-BYVALUE")
+  ctx.borrow(c16.rule_issuer, "R-C17-BYVALUE", None, T.bodies(ctx.repo))       # issuer keys grouped by curve type and point: the verdict does not depend on the neighbours
   ctx.borrow(c02.rule_release, "R-C17-BYVALUE", lambda r: r.where.endswith("BatchDLOfDifferences"))
   # the entry recorded for an artifact (or issuer key) is created and decided in that artifact's own pass of the loop (shared with C16), and the cached
   # baby-step table really holds the entries its size descriptor claims (shared with C10)
   c16.rule_isolated(ctx, T.bodies(ctx.repo), "R-C17-OWN")
   ctx.expect("R-C17-OWN", 24, "24 Check bodies")
   ctx.borrow(c10.rule_table, "R-C17-CACHE")
+  ctx.borrow(c10.rule_cover, "R-C17-CACHE")       # the windows must be adjacent for the *requested* table size: spare entries of a cached larger table do not count
   ctx.expect("R-C17-STATELESS", 8, "seven frozen writes + scan")
   ctx.expect("R-C17-INDIVIDUAL", 17, "17 individual checks")
-  ctx.expect("R-C17-CACHE", 3 + 5, "two table caches + multiples memo + table coverage (shared with C10)")
-  ctx.expect("R-C17-BYVALUE", 25, "BatchGCD + partitions + pairwise difference search (2 + 3 shared rows) + product / remainder tree (16 shared rows)")
+  ctx.expect("R-C17-CACHE", 13, "two table caches + multiples memo + table coverage (shared with C10)")
+  ctx.expect("R-C17-BYVALUE", 26, "BatchGCD + partitions + pairwise difference search (2 + 3 shared rows) + product / remainder tree (16 shared rows)")
 
 
 def self_writes(fn):
